@@ -77,7 +77,7 @@ impl Addr {
     /// such as `unix@` / `abns@`, stale bytes after the terminator, paths that fill the field).
     pub fn unix_paths(seed: u64) -> ([u8; 108], [u8; 108]) {
         let mut rng = Rng::new(seed ^ 0x0517);
-        let mut one = |rng: &mut Rng| -> [u8; 108] {
+        let one = |rng: &mut Rng| -> [u8; 108] {
             let mut p = [0u8; 108];
             const DICT: [&[u8]; 14] = [
                 b"/var/run/haproxy.sock", b"/tmp/s", b"unix@/run/app.sock", b"abns@backend", b"unix@", b"abns@", b"\0abstract-name", b"./relative.sock",
